@@ -35,6 +35,30 @@ def gen_sets(ctx):
     # and the last one is a short tail (slice 100 / 8 workers: 6 x 16 + 4; 36 / 3: 16 + 16 + 4; 132 / 8; 52 / 4; 20 / 2)
     for S_, g_ in ((100, 8), (36, 3), (132, 8), (52, 4), (20, 2), (68, 16)):
         sets.append(P.PSet({"t.bin": L.gen_content(rng, "random", 3 * S_ + 5), "u": L.gen_content(rng, "random", S_ - 1)}, S_, 3, g=g_, tag="slice %d x %d goroutines" % (S_, g_)))
+    # file ids (MD5 of 16k-hash, length, name) that agree in their most significant bytes (15, 14 and - for one pair - 13..):
+    # the ascending order of the main packet is then decided by LOW bytes of the 128-bit little-endian number
+    import hashlib, struct
+    body = L.gen_content(rng, "random", 21)
+    h16 = hashlib.md5(body).digest()
+    seen, ties = {}, []
+    for k in range(40000):
+        name = "t%05d" % k
+        fid = hashlib.md5(h16 + struct.pack("<Q", len(body)) + name.encode()).digest()
+        key = fid[13:16]
+        if key in seen:
+            ties.append((seen[key], name))
+            if len(ties) >= 2:
+                break
+        seen[key] = name
+    key2 = {}
+    for k in range(3000):
+        name = "u%04d" % k
+        fid = hashlib.md5(h16 + struct.pack("<Q", len(body)) + name.encode()).digest()
+        if fid[14:16] in key2 and len(ties) < 4:
+            ties.append((key2[fid[14:16]], name))
+        key2[fid[14:16]] = name
+    for a_, b_ in ties[:4]:
+        sets.append(P.PSet({a_: body, b_: body, "zz": L.gen_content(rng, "random", 5)}, 8, 2, g=1, tag="file ids tie in the high bytes (%s, %s)" % (a_, b_)))
     if thorough:
         sets.append(P.PSet({"huge.bin": L.gen_content(rng, "random", 4 * 4000)}, 4, 4, g=7, tag="4000 slices"))
     return sets
